@@ -414,9 +414,9 @@ Theorem fq_seek_strip ffuel r line byte_ : QFuelOk ffuel r ->
 Proof.
   intros Hf. unfold fq_seek.
   change (qbyte (fq_strip r)) with (qbyte r). change (p0 (fq_strip r)) with (p0 r).
-  change (qbuf (fq_strip r)) with (qbuf r).
+  change (qbuf (fq_strip r)) with (qbuf r). change (qst (fq_strip r)) with (qst r).
   destruct ((0 <=? Z.of_nat (p0 r) + (Z.of_nat byte_ - Z.of_nat (qbyte r)))%Z &&
-            (Z.of_nat (p0 r) + (Z.of_nat byte_ - Z.of_nat (qbyte r)) <? Z.of_nat (length (qbuf r)))%Z).
+            (Z.of_nat (p0 r) + (Z.of_nat byte_ - Z.of_nat (qbyte r)) <? Z.of_nat (length (qbuf r)))%Z && negb (fq_state_eqb (qst r) QNew)).
   { split; [reflexivity|exact Hf]. }
   change (qsrc (fq_strip r)) with (strip_src (qsrc r)).
   destruct (src_seek_strip (qsrc r) byte_) as [H1 Hrs]. rewrite H1.
